@@ -318,6 +318,13 @@ Definition verdict_parse1_C03 (a : list val) (out : val) : N :=
   match a with
   | [VI which; VB v; VB _] =>
       let w := zN which in
+      if w =? 405 then
+        (* AsRTUErrorPacketWithCRC recognises a frame only if it is exactly 5 bytes ending in their CRC *)
+        (match out with
+         | VL (VI 1%Z :: _) => if (length v =? 5)%nat && ends_in_spec_crc v then HOLDS else VIOLATES
+         | VL (VI 2%Z :: _) => VIOLATES
+         | _ => HOLDS
+         end) else
       if (w =? 202) || (w =? 302) then
         if (length v <? 4)%nat then (match out with VL (VI 1%Z :: _) => HOLDS | _ => VIOLATES end) else
         let crc_ok := ends_in_spec_crc v in
@@ -626,6 +633,29 @@ Definition verdict_classify_enc_C18 (a : list val) (out : val) : N :=
   | _ => NOT_JUDGED
   end.
 
+(* parse_pair: args [which; A; B]: parse A, keep the value, parse B (same kind, other buffer), look
+   at A's value again -> [[projection; re-encoding] early; the same late] | [3] when A is refused *)
+Definition req_view (w : N) (v : list N) : val :=
+  match parse_any w (exact v) with
+  | VL [VI 0%Z; VI _; pr; VB re] => VL [pr; VB re]
+  | _ => VL [VI 3%Z]
+  end.
+Definition run_parse_pair (a : list val) : val :=
+  match a with
+  | [VI w; VB x; VB _] =>
+      match req_view (zN w) x with
+      | VL [VI 3%Z] => VL [VI 3%Z]
+      | v => VL [v; v]
+      end
+  | _ => v_bad
+  end.
+Definition verdict_parse_pair (a : list val) (out : val) : N :=
+  match out with
+  | VL [VI 3%Z] => NOT_JUDGED
+  | VL [early; late] => if val_eqb early late then HOLDS else VIOLATES
+  | _ => VIOLATES
+  end.
+
 (* classify_pair: args [A; B]: classify A, keep its error, classify B, look at A's error again
    -> [error of A right away; error of A afterwards].  Errors are values in the model. *)
 Definition classify_err (v : list N) : val :=
@@ -702,6 +732,8 @@ Definition table_packet : list entry :=
        e_verdict := fun p a o => if p =? 11 then verdict_coil_readback_C11 a o else NOT_JUDGED |};
     {| e_name := "classify"; e_run := run_classify;
        e_verdict := fun p a o => if p =? 18 then verdict_classify_C18 a o else NOT_JUDGED |};
+    {| e_name := "parse_pair"; e_run := run_parse_pair;
+       e_verdict := fun p a o => if (p =? 10) || (p =? 9) then verdict_parse_pair a o else NOT_JUDGED |};
     {| e_name := "classify_pair"; e_run := run_classify_pair;
        e_verdict := fun p a o => if (p =? 10) || (p =? 18) then verdict_classify_pair_C18 a o else NOT_JUDGED |};
     {| e_name := "sentinels"; e_run := run_sentinels;
